@@ -99,6 +99,21 @@ for _tag in TEMPLATES:
                TEMPLATES[_tag][0], "HOLE" if _h == 2 else "'x'", TEMPLATES[_tag][1], TEMPLATES[_tag][2], _n))(_adhoc(_tag, _n, _h))
 
 
+# a module-QUALIFIED candidate type: the hole is the module part of a dotted name (lower-case letters: what a module name can be) -------------------------
+def _qualified(n):
+    def body(e0, e1, *cs):
+        return run_set_name_and_type("`" + S(cs) + ".Handler` or `None`", e0, e1)
+
+    body.__name__ = "adhoc_qualified_%d" % n
+    return body
+
+
+for _n, _tier, _T in ((1, "quick", 300), (2, "thorough", 1500)):
+    ob("C17", "adhoc.qualified.n%d" % _n, dict({"e0": BOOL, "e1": BOOL}, **{"c%d" % i: R(97, 122) for i in range(_n)}), tier=_tier, T=_T, funcs=FUNCS, assumes=[STUB_DOC, ADHOC_SHIMS_DOC],
+       bound="parameter description '`' + MODULE + '.Handler` or `None`' with MODULE = ANY %d lower-case letter(s): whatever the eval probe answers, no module named by the docstring is imported" % _n,
+       )(_qualified(_n))
+
+
 SIGMA17 = "()_.,;:'\"\\ \ta Z0|-*=`[]"
 
 
